@@ -75,7 +75,9 @@ fn workload(queues: Vec<(u32, u32)>, interleave: u8, full_fdt: bool, objs: Vec<W
     ops.push(TimedOp { when: When::AtUs(0), op: Op::Publish });
     for (i, k) in late {
         ops.push(TimedOp { when: When::AfterPkt(k), op: Op::Add(i) });
-        ops.push(TimedOp { when: When::AfterPkt(k), op: Op::Publish });
+        // (the publication may come some packets after the add: transfers end - and objects are queued again - in between)
+        let d = [0u64, 0, 1, 3, 7, 12][((seed >> 8) as usize + i) % 6];
+        ops.push(TimedOp { when: When::AfterPkt(k + d), op: Op::Publish });
     }
     for (i, k) in removals {
         ops.push(TimedOp { when: When::AfterPkt(k), op: Op::Remove(i) });
